@@ -12,7 +12,12 @@ Tie (every run, real code compiled from the working tree with ASan+UBSan):
      `sqfsmodel c17 pack-run` on the same ordered file list and flags (compressed payloads supplied by the real
      block compressor as the model's Codec parameter), including the bytes of the data area; each directive's
      documented effect is evaluated as a predicate on the real layout; `readFile` of the specification is run on the
-     real layout (mon-read) and `rdsquashfs -c` must return the original bytes; export table vs the model.
+     real layout (mon-read) and `rdsquashfs -c` must return the original bytes; export table vs the model; for a
+     share of the cases the same tree is packed again without sort file and -T and the two images must describe the
+     same tree (`rdsquashfs -d`, raw inode walk).
+  C. export table alone: a real sqfs_dir_writer_t with SQFS_DIR_WRITER_CREATE_EXPORT_TABLE (add_entry sequences up to
+     several thousand inodes, any order, gaps, repeats) + sqfs_dir_writer_write_export_table into a memory file vs
+     `sqfsmodel c17 exptbl` (Sqfs/Model/C17Export.lean: growing array, 0xFF fill, sqfs_write_table), byte for byte.
 """
 import concurrent.futures, io, json, os, struct, tarfile
 import vlib, sqfsraw
@@ -23,7 +28,11 @@ REQUIRED = ["Sqfs.C17." + n for n in (
     "sort_perm", "sort_sorted", "sort_stable", "first_match_wins", "exact_line_matches_one",
     "dont_compress_words", "dont_fragment_effect", "nosparse_effect", "no_tail_packing_only_large",
     "no_tail_packing_layout", "dont_compress_effect", "dont_dedup_effect", "layout_follows_order",
-    "directives_preserve_content", "export_table_ok", "quoted_name_decodes")]
+    "directives_preserve_content", "export_table_ok", "quoted_name_decodes", "directives_preserve_tree",
+    "directives_preserve_size", "export_array_refines", "export_table_written", "export_table_of_tree")]
+ALL_ERR_KINDS = {"number", "overflow", "filename", "bracket", "flaglist", "afterflags", "unknownflag", "unmatched", "escape",
+                 "trailing", "canon"}
+TOOL_TIMEOUT = 1800        # seconds; generous: a timeout is reported as a result of the real code, never hit by load alone
 
 F_DC, F_DF, F_DD, F_NS = 1, 4, 8, 16          # cross-checked against the generated constants in run()
 FLAGNAMES = {F_DC: "dont_compress", F_DF: "dont_fragment", F_DD: "dont_deduplicate", F_NS: "nosparse"}
@@ -54,20 +63,23 @@ class Env:
         self.driver = str(ctx.driver_path())
 
     def run_harness(self, lines):
-        r = vlib.sh([str(self.harness)], input="\n".join(lines) + "\n", env=self.env, timeout=900)
+        r = vlib.sh([str(self.harness)], input="\n".join(lines) + "\n", env=self.env, timeout=TOOL_TIMEOUT)
         out = r.stdout.splitlines()
         if r.returncode != 0 or len(out) != len(lines):
             raise HarnessCrash(len(out), r.returncode, r.stderr[-3000:], lines[min(len(out), len(lines) - 1)])
         return out
 
     def run_model(self, lines):
-        r = vlib.sh([self.driver, "c17"], input="\n".join(lines) + "\n", timeout=900)
+        r = vlib.sh([self.driver, "c17"], input="\n".join(lines) + "\n", timeout=TOOL_TIMEOUT)
         out = r.stdout.splitlines()
         if r.returncode != 0 or len(out) != len(lines):
-            raise vlib.CheckFailure("model driver failed: rc=%s %s" % (r.returncode, r.stderr[-2000:]))
+            raise vlib.CheckFailure("model driver failed: rc=%s, %d answers for %d lines: %s" % (r.returncode, len(out), len(lines), r.stderr[-2000:]))
+        bad = [(l, o) for l, o in zip(lines, out) if o == "bad-op"]
+        if bad:
+            raise vlib.CheckFailure("model driver did not understand %d line(s), first: %s" % (len(bad), bad[0][0][:300]))
         return out
 
-    def tool(self, cmd, stdin=None, timeout=120):
+    def tool(self, cmd, stdin=None, timeout=TOOL_TIMEOUT):
         """run a CLI tool of the working tree; stdout/stderr decoded leniently (names are arbitrary bytes)"""
         class R:
             pass
@@ -90,6 +102,12 @@ def report_once(ctx, key, what, replay):
         return
     _reported.add(key)
     ctx.violation(key, what, replay)
+
+
+def san_summary(err):
+    """the informative lines of a sanitizer report"""
+    keep = [l.strip() for l in err.splitlines() if "ERROR:" in l or "SUMMARY:" in l or "runtime error" in l]
+    return " | ".join(keep)[:600] or err[-400:]
 
 
 class HarnessCrash(Exception):
@@ -132,6 +150,57 @@ BIGP = [9223372036854775806, -9223372036854775806, 9223372036854775807, 18446744
         1844674407370955161, 1844674407370955160, 99999999999999999999, -9223372036854775807]
 
 
+# magnitudes on both sides of 2^31, 2^32, 2^53: a 32 bit (or double) priority changes the order of these among each
+# other and against the small values (2^32 -> 0, 2^31 -> negative, 2^32+5 -> 5, ...)
+WIDEP = [2147483647, 2147483648, 2147483649, -2147483648, -2147483649, 4294967295, 4294967296, 4294967301, -4294967296,
+         -4294967303, 8589934593, 12884901890, 1099511627776, -1099511627776, 9007199254740993, 9007199254740992,
+         -9007199254740993, 4611686018427387904, -4611686018427387904, 9223372036854775805, -9223372036854775805]
+
+
+PRIO_MAX = 9223372036854775806        # ±(2^63 - 2): what decode_priority accepts
+
+
+def gen_prio(rng):
+    return max(-PRIO_MAX, min(PRIO_MAX, gen_prio_raw(rng)))
+
+
+def gen_prio_raw(rng):
+    r = rng.random()
+    if r < 0.70:
+        return rng.choice([0, 1, -1, 2, -2, 5, 5, -7, 10, 100, -10000])
+    if r < 0.93:
+        v = rng.choice(WIDEP)
+        return v if rng.random() < 0.7 else v + rng.choice([-3, -1, 1, 2, 5])
+    if r < 0.97:
+        return rng.choice(BIGP[:2])
+    return rng.randint(-(1 << 62), 1 << 62)
+
+
+def gen_extras(rng, paths):
+    """other node types around the regular files `paths` (sortx): [(kind, path, extra|None)]"""
+    used = set(paths)
+    for p in paths:                                    # the implicit parent directories
+        parts = p.split(b"/")
+        for k in range(1, len(parts)):
+            used.add(b"/".join(parts[:k]))
+    out = []
+    for _ in range(rng.randint(1, 5)):
+        kind = rng.choice("dlhhcbps")
+        d = rng.choice([b"", b"", b"bin", b"lib", b"etc"])
+        nm = rng.choice([b"hl", b"sl", b"node", b"zz", b"a.lnk", b"mk1", b"lib.so"]) + str(rng.randint(0, 9)).encode()
+        p = (d + b"/" + nm) if d else nm
+        if p in used or any(q.startswith(p + b"/") for q in used) or any(p.startswith(q + b"/") for q in paths):
+            continue
+        used.add(p)
+        if kind == "l":
+            out.append((kind, p, rng.choice([b"a", b"../x", b"/abs/target", rng.choice(paths)])))
+        elif kind == "h":
+            out.append((kind, p, b"/" + rng.choice(paths)))
+        else:
+            out.append((kind, p, None))
+    return out
+
+
 def gen_flags_token(rng, subset=None, glob=None, messy=False):
     """'[a,b]' list text for a set of flag bits (+ glob kind 0/1/2)"""
     names = [FLAGNAMES[b] for b in (F_DC, F_DF, F_DD, F_NS) if (subset or 0) & b]
@@ -165,7 +234,7 @@ def gen_line(rng, paths, valid_only=False):
             b"3 [] " + p, b"3 [,] " + p, b"3 [glob,] ]" + p, b"+3 " + p, b"3 [dont_compress]", b"0x10 " + p,
             b"3 [ glob , nosparse ] " + p, b"3 [GLOB] " + p, b'3 "' + p + b'"', b"3 \"\"", b"3 \"a\\\\\"", b"3 \"\\\"",
         ])
-    prio = rng.choice([0, 1, -1, 2, -2, 5, 5, -7, 10, 100, -10000]) if rng.random() < 0.9 else rng.choice(BIGP[:2])
+    prio = gen_prio(rng)
     ps = str(prio).encode()
     if rng.random() < 0.05:
         ps = (b"-" if prio < 0 else b"") + b"00" + str(abs(prio)).encode()
@@ -208,7 +277,7 @@ def model_sort(env, jobs, mode):
     """jobs: list of (init_paths, sortfile bytes).  Returns list of result lines of `sort <mode>`; fnmatch answers
     come from libc via the harness."""
     dec_lines, owner = [], []
-    for j, (paths, sf) in enumerate(jobs):
+    for j, (paths, sf, *_) in enumerate(jobs):
         raws = sf.split(b"\n")
         for k, raw in enumerate(raws):
             dec_lines.append("decode %s %s" % (mode, hx(raw)))
@@ -218,7 +287,7 @@ def model_sort(env, jobs, mode):
     for (j, k), d in zip(owner, dec):
         per[j].append(d)
     fn_lines, fn_owner = [], []
-    for j, (paths, sf) in enumerate(jobs):
+    for j, (paths, sf, *_) in enumerate(jobs):
         if any(d.startswith("err") for d in per[j]):
             continue
         for k, d in enumerate(per[j]):
@@ -232,10 +301,12 @@ def model_sort(env, jobs, mode):
     for j, b in zip(fn_owner, fn):
         bits[j] += b
     lines = []
-    for j, (paths, sf) in enumerate(jobs):
+    for j, (paths, sf, *tree) in enumerate(jobs):
         raws = sf.split(b"\n")
-        lines.append("sort %s %d %s %d %s %s" % (mode, len(paths), " ".join(hx(p) for p in paths), len(raws),
-                                                 " ".join(hx(r) for r in raws), bits[j] or "-"))
+        # `sort` = the list-level model sortFiles, `sorttree` = fstreeSortFiles on a whole fstree_t (C17SortTree.lean)
+        lines.append("%s %s %d %s %d %s %s" % ("sorttree" if tree and tree[0] else "sort", mode, len(paths),
+                                               " ".join(hx(p) for p in paths), len(raws),
+                                               " ".join(hx(r) for r in raws), bits[j] or "-"))
     return env.run_model(lines), per, bits
 
 
@@ -285,26 +356,61 @@ def sort_clause_failures(init, res, decoded, bits):
 
 
 # ------------------------------------------------------------------------------------------------ part A
+def s32(x):
+    return ((x + (1 << 31)) & 0xFFFFFFFF) - (1 << 31)
+
+
+def harness_sort_line(paths, sf, extras):
+    if not extras:
+        return "sort %d %s %s" % (len(paths), " ".join(hx(x) for x in paths), hx(sf))
+    ents = [("f", x, None) for x in paths] + list(extras)
+    toks = ["%s:%s%s" % (k, hx(x), "" if e is None else ":" + hx(e)) for k, x, e in ents]
+    return "sortx %d %s %s" % (len(ents), " ".join(toks), hx(sf))
+
+
+def split_sort_answer(line):
+    """'init … ; ok|err … ; frame ok|changed' -> (init paths, result, frame)"""
+    parts = line.split(" ; ")
+    if len(parts) != 3 or not parts[0].startswith("init") or not parts[2].startswith("frame "):
+        raise vlib.CheckFailure("harness answered a sort line with %r" % line[:300])
+    return [unhx(t) for t in parts[0].split()[1:]], parts[1], parts[2].split()[1]
+
+
 def part_a(ctx, env, cases):
-    """cases: list of (paths, sortfile).  Returns stats; reports violations."""
-    hl = ["sort %d %s %s" % (len(p), " ".join(hx(x) for x in p), hx(sf)) for p, sf in cases]
+    """cases: list of (paths, sortfile, extras).  Returns stats; reports violations."""
+    hl = [harness_sort_line(p, sf, ex) for p, sf, ex in cases]
     try:
         real = env.run_harness(hl)
     except HarnessCrash as e:
-        ctx.violation("crash:" + vlib.sha(e.line)[:12], "fstree_sort_files harness aborted (rc=%s): %s" % (e.rc, e.err[-600:]),
-                      {"harness_line": e.line, "stderr": e.err})
+        ctx.violation("crash:" + vlib.sha(e.line)[:12], "fstree_sort_files harness aborted (rc=%s): %s" % (e.rc, san_summary(e.err)),
+                      {"kind": "sort", "harness_line": e.line, "stderr": e.err})
         return {"sort_cases": 0}
+    if len(real) != len(cases):
+        raise vlib.CheckFailure("sort harness: %d answers for %d cases" % (len(real), len(cases)))
     jobs, rres = [], []
-    for (paths, sf), line in zip(cases, real):
-        init_s, res_s = line.split(" ; ")
-        init = [unhx(t) for t in init_s.split()[1:]]
-        jobs.append((init, sf))
+    nframe = 0
+    for j, ((paths, sf, extras), line) in enumerate(zip(cases, real)):
+        if line == "bad-op":
+            raise vlib.CheckFailure("sort harness did not understand: %s" % hl[j][:300])
+        init, res_s, frame = split_sort_answer(line)
+        if sorted(init) != sorted(paths):
+            raise vlib.CheckFailure("fs->files of the harness tree is not the generated file list: %s" % hl[j][:300])
+        jobs.append((init, sf, bool(extras)))
         rres.append(res_s)
+        if frame != "ok":      # directives_preserve_tree evaluated on the real function: it wrote a field it must not touch
+            nframe += 1
+            if nframe <= 3:
+                ctx.violation("frame:" + vlib.sha(hl[j])[:12], "fstree_sort_files changed the tree beyond fs->files order, "
+                              "data.file.priority/flags and FLAG_FILE_ALREADY_MATCHED (names, modes, owners, inode numbers, "
+                              "targets, fs->inodes or the set of files differ before/after)", {"kind": "sort", "harness_line": hl[j], "impl": line})
     mfix, per, bits = model_sort(env, jobs, "fix")
     mcur = None
-    stats = {"sort_cases": len(cases), "sort_ok": 0, "sort_err": 0, "err_kinds": {}, "quoted_cur_diff": 0, "nontrivial": 0}
+    stats = {"sort_cases": len(cases), "sort_ok": 0, "sort_err": 0, "err_kinds": {}, "quoted_cur_diff": 0, "nontrivial": 0,
+             "typed_trees": sum(1 for c in cases if c[2]), "frame_changed": nframe, "wide_priority_pairs": 0}
     nbad = 0
-    for j, ((init, sf), rr) in enumerate(zip(jobs, rres)):
+    if not (len(mfix) == len(jobs) == len(rres) == len(per) == len(bits)):
+        raise vlib.CheckFailure("part A: streams of unequal length")
+    for j, ((init, sf, _tree), rr) in enumerate(zip(jobs, rres)):
         mf = mfix[j]
         r_ok = rr.startswith("ok")
         same = (rr == mf) if r_ok else (mf.startswith("err") and rr.split()[1] == mf.split()[1])
@@ -314,6 +420,9 @@ def part_a(ctx, env, cases):
             if [p for p, _, _ in res] != init or any(x[1] or x[2] for x in res):
                 stats["nontrivial"] += 1
                 _distinct.add(vlib.sha(hl[j])[:16])
+            pr = sorted({x[1] for x in res})
+            if any(s32(a) >= s32(b) for a, b in zip(pr, pr[1:])):
+                stats["wide_priority_pairs"] += 1        # a 32 bit comparison would order these two differently
         else:
             stats["sort_err"] += 1
             k = rr.split()[1]
@@ -351,11 +460,190 @@ def part_a(ctx, env, cases):
     return stats
 
 
+# ------------------------------------------------------------------------------------------------ part C: export table alone
+NOREF = 0xFFFFFFFFFFFFFFFF
+
+
+def ideal_table(pairs):
+    """what the export table must be after these (inum, iref) calls — written down independently of model and code"""
+    t = []
+    for inum, iref in pairs:
+        if inum > len(t):
+            t += [NOREF] * (inum - len(t))
+        t[inum - 1] = iref
+    return t
+
+
+def gen_export_case(rng, idx, quick):
+    band = rng.choice(["small", "small", "512", "513+", "1024", "1025+", "2049+", "big"])
+    N = {"small": rng.randint(1, 40), "512": rng.randint(505, 512), "513+": rng.randint(513, 640), "1024": rng.randint(1017, 1024),
+         "1025+": rng.randint(1025, 1300), "2049+": rng.randint(2049, 2200),
+         "big": rng.randint(2500, 4200 if quick else 9000)}[band]
+    nums = list(range(1, N))                       # the root gets N, as alloc_inode_num_dfs numbers it
+    order = rng.choice(["asc", "asc", "perm", "desc", "first-big", "gaps", "repeats"])
+    if order == "perm":
+        rng.shuffle(nums)
+    elif order == "desc":
+        nums.reverse()
+    elif order == "first-big":                     # the first call jumps far beyond the initial 512 cells
+        nums = nums[-1:] + nums[:-1]
+    elif order == "gaps":                          # numbers that are never added stay 0xFF..FF
+        nums = [n for n in nums if rng.random() < 0.8]
+    elif order == "repeats":                       # hard-link entries repeat a number (with the same reference)
+        nums = nums + [rng.choice(nums) for _ in range(min(len(nums), rng.randint(1, 30)))] if nums else nums
+        rng.shuffle(nums)
+    refs = {}
+    pairs = [(n, refs.setdefault(n, rng.getrandbits(48))) for n in nums]
+    root = (N, rng.getrandbits(48)) if rng.random() < 0.9 else (rng.randint(1, N + 600), rng.getrandbits(48))
+    if rng.random() < 0.04:                        # rejected: inode number 0
+        if pairs and rng.random() < 0.5:
+            k = rng.randrange(len(pairs))
+            pairs[k] = (0, pairs[k][1])
+        else:
+            root = (0, root[1])
+    return {"id": idx, "pairs": pairs + [root], "off": rng.choice([0, 96, rng.randrange(1 << 22)]),
+            "comp": rng.choice(["raw", "gzip", "gzip", "zstd", "lz4", "xz"]), "order": order, "band": band}
+
+
+def export_lines(c):
+    return "exptbl %d %d %s" % (c["off"], len(c["pairs"]), " ".join("%d %d" % pr for pr in c["pairs"]))
+
+
+def part_c(ctx, env, cases):
+    """the real dir writer's export table (array growth, fill, sqfs_write_table) vs the model, byte for byte"""
+    stats = {"export_cases": len(cases), "ok": 0, "rejected": 0, "inodes_ge_513": 0, "inodes_ge_1025": 0, "inodes_ge_2049": 0,
+             "max_entries": 0, "blocks": 0, "compressed_blocks": 0, "disagreements": 0}
+    # 1. compressor answers for the 8 KiB chunks of the expected table (oracle for the model's codec parameter)
+    hl, where = [], []
+    for c in cases:
+        valid = all(n >= 1 for n, _ in c["pairs"])
+        tbl = ideal_table(c["pairs"]) if valid else []
+        c["ideal"] = struct.pack("<%dQ" % len(tbl), *tbl)
+        c["chunks"] = [c["ideal"][i:i + 8192] for i in range(0, len(c["ideal"]), 8192)]
+        hl.append("cinit %s 8192" % c["comp"])
+        where.append(None)
+        if c["comp"] != "raw":
+            for ch in c["chunks"]:
+                hl.append("cmp " + hx(ch))
+                where.append((c, ch))
+        hl.append(export_lines(c))
+        where.append(c)
+    try:
+        out = env.run_harness(hl)
+    except HarnessCrash as e:
+        # the harness answers line by line, so the first unanswered line is the one that crashed
+        culprit = next((c for c in cases if export_lines(c) == e.line), None)
+        replay = {"kind": "export", "harness_line": e.line[:2000], "stderr": e.err}
+        if culprit is not None:
+            replay["case"] = {k: culprit[k] for k in ("id", "pairs", "off", "comp", "order", "band")}
+        ctx.violation("export-crash:" + vlib.sha(e.line)[:12], "the dir writer's export table code aborted (rc=%s) on %s… (%s): %s" % (
+            e.rc, e.line[:60], "%d calls, %s order" % (len(culprit["pairs"]), culprit["order"]) if culprit else "not an exptbl line",
+            san_summary(e.err)), replay)
+        return stats
+    for c in cases:
+        c["table"] = {}
+    for w, o in zip(where, out):
+        if w is None:
+            if o != "ok":
+                raise vlib.CheckFailure("harness cinit failed: %s" % o)
+        elif isinstance(w, tuple):
+            if o == "err" or o == "bad-op":
+                raise vlib.CheckFailure("harness cmp failed")
+            if o != "-":
+                w[0]["table"][w[1]] = unhx(o)
+        else:
+            w["real"] = o
+    # 2. the model on the same calls
+    ml, mwhere = [], []
+    for c in cases:
+        ml.append("pack-begin 8192 0")
+        mwhere.append(None)
+        for k, v in c["table"].items():
+            ml.append("cmp %s %s" % (hx(k), hx(v)))
+            mwhere.append(None)
+        ml.append(export_lines(c))
+        mwhere.append(c)
+    mo = env.run_model(ml)
+    for w, o in zip(mwhere, mo):
+        if w is not None:
+            w["model"] = o
+    # 3. compare; independently decode the real bytes against the ideal table
+    for c in cases:
+        real, model = c.get("real"), c.get("model")
+        if real is None or model is None:
+            raise vlib.CheckFailure("export case without an answer")
+        n_entries = len(c["ideal"]) // 8
+        stats["max_entries"] = max(stats["max_entries"], n_entries)
+        why = None
+        if real.startswith("ok"):
+            stats["ok"] += 1
+            for lim in (513, 1025, 2049):
+                if n_entries >= lim:
+                    stats["inodes_ge_%d" % lim] += 1
+            _, start, body = real.split()
+            why = export_decode_problem(c, int(start), unhx(body), stats)
+            _distinct.add("export:%d" % c["id"])
+        elif real.startswith("err"):
+            stats["rejected"] += 1
+            if all(n >= 1 for n, _ in c["pairs"]):
+                why = "valid calls refused: %s" % real
+        else:
+            raise vlib.CheckFailure("export harness answered %r" % real[:200])
+        if real != model or why:
+            stats["disagreements"] += 1
+            if stats["disagreements"] <= 4:
+                replay = {"kind": "export", "case": {k: c[k] for k in ("id", "pairs", "off", "comp", "order", "band")},
+                          "impl": real[:400], "model": model[:400]}
+                if why:        # the specification (export_table_ok read on the bytes) is violated by the implementation
+                    ctx.violation("export:" + vlib.sha(export_lines(c))[:12], "export table written by dir_writer.c is wrong (%d entries, "
+                                  "%s order, %s): %s" % (n_entries, c["order"], c["comp"], why), replay)
+                else:
+                    ctx.violation("export-corr:" + vlib.sha(export_lines(c))[:12], "export table: dir_writer.c and the model disagree "
+                                  "although the table decodes correctly: impl=%s… model=%s…" % (real[:80], model[:80]), replay, found_input=False)
+    return stats
+
+
+def export_decode_problem(c, start, body, stats):
+    """export_table_ok / export_table_written read on the bytes the real code produced; None = fine"""
+    rev = {v: k for k, v in c["table"].items()}
+    pos, raw, locs = 0, b"", []
+    nblk = (len(c["ideal"]) + 8191) // 8192
+    for _ in range(nblk):
+        if pos + 2 > len(body):
+            return "file ends inside the metadata blocks"
+        (hdr,) = struct.unpack_from("<H", body, pos)
+        n = hdr & 0x7FFF
+        stored = body[pos + 2:pos + 2 + n]
+        if len(stored) != n:
+            return "metadata block runs past the end"
+        locs.append(c["off"] + pos)
+        stats["blocks"] += 1
+        if hdr & 0x8000:
+            raw += stored
+        else:
+            stats["compressed_blocks"] += 1
+            if stored not in rev:
+                return "a compressed metadata block is not what the compressor makes of the table bytes"
+            raw += rev[stored]
+        pos += 2 + n
+    if raw != c["ideal"]:
+        k = next((i for i in range(0, min(len(raw), len(c["ideal"])), 8) if raw[i:i + 8] != c["ideal"][i:i + 8]), None)
+        return "table contents differ (first wrong entry: %s; %d bytes for %d expected)" % (
+            None if k is None else k // 8, len(raw), len(c["ideal"]))
+    if start != c["off"] + pos:
+        return "export_table_start %d, location list at %d" % (start, c["off"] + pos)
+    if body[pos:] != struct.pack("<%dQ" % nblk, *locs):
+        return "location list wrong"
+    return None
+
+
 # ------------------------------------------------------------------------------------------------ part B: pack cases
 def gen_content(rng, B, prev):
     """bytes of one file; `prev` = contents generated so far (for duplicates / shared parts)"""
     size = rng.choice([0, 1, 2, 100, B - 1, B, B + 1, 2 * B, 2 * B + 17, 3 * B, rng.randint(1, 300), rng.randint(1, 3 * B),
                        B // 2, B // 2 + 1, B - 100])
+    if B <= 8192 and rng.random() < 0.04:                         # a file of many blocks
+        size = rng.choice([17 * B, 40 * B + 5, rng.randint(8 * B, 64 * B)])
     kind = rng.random()
 
     def rnd(n):
@@ -394,8 +682,9 @@ COMPS = ["gzip", "xz", "lz4", "zstd"]
 
 
 def gen_pack_case(rng, idx, quick, flavour="gensquashfs"):
-    B = rng.choice([4096] * 5 + [8192] * 2 + ([16384, 65536, 131072] if not quick else [16384]))
-    paths = gen_paths(rng, 9)
+    # block sizes: mostly small (many blocks per file for little data); the large ones with few files
+    B = rng.choice([4096] * 5 + [8192] * 2 + [16384, 65536, 131072] + ([262144, 1048576] if not quick else []))
+    paths = gen_paths(rng, 9 if B <= 16384 else 4) if rng.random() < 0.9 or B > 16384 else gen_paths(rng, 30)
     contents, prev = [], []
     for _ in paths:
         c = gen_content(rng, B, prev)
@@ -403,8 +692,8 @@ def gen_pack_case(rng, idx, quick, flavour="gensquashfs"):
         prev.append(c)
     case = {"id": idx, "B": B, "paths": paths, "contents": contents, "comp": rng.choice(COMPS), "tool": flavour,
             "notail": rng.random() < 0.35, "export": rng.random() < 0.4, "devblk": rng.choice([4096, 4096, 1024, 8192]),
-            "jobs": 1 if quick or rng.random() < 0.8 else rng.choice([2, 4])}
-    case["backlog"] = None if quick or rng.random() < 0.7 else rng.choice([1, 3, 4, 7])
+            "jobs": 1 if rng.random() < 0.55 else rng.choice([2, 3, 4])}
+    case["backlog"] = None if rng.random() < 0.7 else rng.choice([1, 3, 4, 7])
     case["optseed"] = rng.randrange(1 << 30)
     if rng.random() < 0.3:
         # --no-tail-packing boundary: the limit is the *configured* block size whatever the default (128 KiB) is and
@@ -446,6 +735,89 @@ def gen_pack_case(rng, idx, quick, flavour="gensquashfs"):
         head = b"2 " + (gen_flags_token(rng, fi) + b" " if fi else b"") + paths[first] + b"\n" \
             + b"3 " + (gen_flags_token(rng, fl) + b" " if fl else b"") + paths[second] + b"\n"
         case["sortfile"] = head + (case["sortfile"] or b"")
+    gen_other_nodes(rng, case)
+    # pack the same tree once more without sort file and -T and compare what a reader sees of the tree
+    case["twin"] = bool(case.get("sortfile") or case["notail"]) and rng.random() < 0.25
+    return case
+
+
+def gen_other_nodes(rng, case):
+    """nodes that are not plain `file` entries: other inode types, files that come from a `glob` line of the pack file,
+    hard links to regular files (scanned directory, tar) — and sort-file lines that name them"""
+    paths = case["paths"]
+    used = set(paths)
+    for p in paths:
+        parts = p.split(b"/")
+        for k in range(1, len(parts)):
+            used.add(b"/".join(parts[:k]))
+    if case.get("limit_case") or rng.random() < 0.55:
+        return
+    others = []                                                     # (kind, path, extra)
+
+    def fresh(stem):
+        for _ in range(20):
+            d = rng.choice([b"", b"", b"bin", b"lib", b"opt"])
+            p = (d + b"/" if d else b"") + stem + str(rng.randint(0, 99)).encode()
+            if p not in used and not any(q.startswith(p + b"/") for q in used):
+                used.add(p)
+                return p
+        return None
+
+    kinds = {"gensquashfs": "dlcbps", "packdir": "dlp", "tar2sqfs": "dlcp"}[case["tool"]]
+    for _ in range(rng.randint(1, 4)):
+        k = rng.choice(kinds)
+        p = fresh({"d": b"emptydir", "l": b"sym", "c": b"chr", "b": b"blk", "p": b"fifo", "s": b"sock"}[k])
+        if p is not None:
+            others.append((k, p, rng.choice([b"a", b"../up", b"/abs/olute", rng.choice(paths)]) if k == "l" else None))
+    # hard links to regular files: the link sorts directly behind its target in the same directory, so that the
+    # (name-sorted) scan meets the target first and makes the second name the link
+    if case["tool"] in ("packdir", "tar2sqfs") and rng.random() < 0.6:
+        for tgt in rng.sample(paths, min(len(paths), rng.randint(1, 2))):
+            lp = tgt + b"\x01hl"
+            if lp not in used:
+                used.add(lp)
+                others.append(("h", lp, tgt))
+                # … and a directive of its own in the sort file: the flags of a file with several names must arrive too
+                if case["tool"] == "packdir" and plain_ok(tgt) and b'"' not in tgt and rng.random() < 0.8:
+                    fl = rng.choice([F_DC, F_NS, F_DF, F_DD, F_DC | F_NS])
+                    case["sortfile"] = str(rng.choice([-6, 3, -2147483650])).encode() + b" " + gen_flags_token(rng, fl) + b" " + tgt + b"\n" \
+                        + (case.get("sortfile") or b"")
+    # files delivered by a `glob` line instead of `file` lines: the regular files directly inside one directory
+    if case["tool"] == "gensquashfs" and rng.random() < 0.5:
+        d = rng.choice([b"bin", b"lib"])
+        idx = [i for i, p in enumerate(paths) if p.startswith(d + b"/") and b"/" not in p[len(d) + 1:]]
+        if idx and not any(k == "d" and q == d for k, q, _ in others):
+            case["glob_dir"] = d
+            case["via_glob"] = idx
+    case["others"] = others
+    # sort-file lines that name the other nodes (never match: only regular files are on fs->files)
+    if case.get("sortfile") is not None and others and rng.random() < 0.7:
+        k, q, _ = rng.choice(others)
+        if plain_ok(q) and b'"' not in q:
+            line = str(rng.choice([-9, -1, 4, 2147483648, -4294967296])).encode() + b" " + q + b"\n"
+            case["sortfile"] = line + case["sortfile"] if rng.random() < 0.5 else case["sortfile"] + (
+                b"" if case["sortfile"].endswith(b"\n") or not case["sortfile"] else b"\n") + line
+
+
+def gen_many_case(rng, idx, lo, hi):
+    """an image with many inodes and -e: the export table beyond the initial 512 entries / beyond one 8 KiB block"""
+    n = rng.randint(lo, hi)
+    ndirs = rng.randint(1, 12)
+    paths, contents = [], []
+    pool = [b"", b"x", b"tiny", b"tiny", bytes(3), b"0123456789" * 5, rng.randbytes(24)]
+    for i in range(n):
+        paths.append(b"m%d/f%04d" % (rng.randrange(ndirs), i))
+        contents.append(rng.choice(pool) if rng.random() < 0.8 else rng.randbytes(rng.randint(1, 60)))
+    for k in rng.sample(range(n), 3):
+        contents[k] = rng.randbytes(4096 * rng.randint(1, 3) + rng.randint(0, 50))
+    case = {"id": idx, "B": 4096, "paths": paths, "contents": contents, "comp": rng.choice(["gzip", "zstd", "lz4"]),
+            "tool": rng.choice(["gensquashfs", "gensquashfs", "tar2sqfs"]), "notail": rng.random() < 0.3, "export": True,
+            "devblk": 4096, "jobs": rng.choice([1, 3]), "backlog": None, "optseed": rng.randrange(1 << 30), "many": True,
+            "sample": sorted(rng.sample(range(n), 14))}
+    case["sortfile"] = None
+    if case["tool"] == "gensquashfs":
+        a, b = rng.sample(paths, 2)
+        case["sortfile"] = b"-3 [dont_deduplicate] " + a + b"\n7 [glob] m1/*\n-2147483649 " + b + b"\n"
     return case
 
 
@@ -496,6 +868,19 @@ def build_image(env, case, d):
             os.makedirs(os.path.dirname(full), exist_ok=True)
             with open(full, "wb") as f:
                 f.write(c)
+        for k, p, x in case.get("others", []):
+            full = os.path.join(root, p)
+            os.makedirs(os.path.dirname(full), exist_ok=True)
+            if k == "d":
+                os.makedirs(full, exist_ok=True)
+            elif k == "l":
+                os.symlink(x, full)
+            elif k == "p":
+                os.mkfifo(full)
+            elif k == "h":
+                os.link(os.path.join(root, x), full)
+            else:
+                raise vlib.CheckFailure("generator: node kind %r in a scanned directory" % k)
         extra["dir"] = ("-D", "--pack-dir", d / "root")
         if case["sortfile"] is not None:
             (d / "sort.txt").write_bytes(case["sortfile"])
@@ -504,9 +889,26 @@ def build_image(env, case, d):
         return r.returncode, r.stderr, img
     if case["tool"] == "gensquashfs":
         lines = []
+        via_glob = set(case.get("via_glob", []))
         for i, (p, c) in enumerate(zip(case["paths"], case["contents"])):
+            if i in via_glob:                                       # delivered by the glob line below
+                gd = os.fsencode(str(d / "globsrc"))
+                os.makedirs(gd, exist_ok=True)
+                with open(os.path.join(gd, p.split(b"/")[-1]), "wb") as f:
+                    f.write(c)
+                continue
             (d / ("f%d.bin" % i)).write_bytes(c)
-            lines.append(b"file " + pack_entry_name(b"/" + p) + b" 0644 0 0 " + str(d / ("f%d.bin" % i)).encode())
+            h = sum(p)                                              # permission bits and owners vary with the name
+            attr = b" 0%o %d %d " % ([0o644, 0o600, 0o755, 0o444][h % 4], h % 3, (h // 3) % 3)
+            lines.append(b"file " + pack_entry_name(b"/" + p) + attr + str(d / ("f%d.bin" % i)).encode())
+        if via_glob:
+            lines.insert(min(len(lines), case["optseed"] % (len(lines) + 1)),
+                         b"glob /" + case["glob_dir"] + b" 0644 0 0 -type f ./globsrc")
+        for k, p, x in case.get("others", []):
+            q = pack_entry_name(b"/" + p)
+            lines.append({"d": b"dir " + q + b" 0750 3 4", "l": b"slink " + q + b" 0777 0 0 " + pack_entry_name(x or b"x"),
+                          "c": b"nod " + q + b" 0600 0 0 c 5 1", "b": b"nod " + q + b" 0660 0 6 b 8 0",
+                          "p": b"pipe " + q + b" 0600 0 0", "s": b"sock " + q + b" 0600 1 1"}[k])
         (d / "pack.txt").write_bytes(b"\n".join(lines) + b"\n")
         extra["pack"] = ("-F", "--pack-file", d / "pack.txt")
         if case["sortfile"] is not None:
@@ -521,6 +923,22 @@ def build_image(env, case, d):
             ti.size = len(c)
             ti.mode = 0o644
             tf.addfile(ti, io.BytesIO(c))
+        for k, p, x in case.get("others", []):
+            ti = tarfile.TarInfo(p.decode("utf-8", "surrogateescape"))
+            ti.mode = 0o640
+            if k == "d":
+                ti.type, ti.mode = tarfile.DIRTYPE, 0o750
+            elif k == "l":
+                ti.type, ti.linkname = tarfile.SYMTYPE, x.decode("utf-8", "surrogateescape")
+            elif k == "h":
+                ti.type, ti.linkname = tarfile.LNKTYPE, x.decode("utf-8", "surrogateescape")
+            elif k == "c":
+                ti.type, ti.devmajor, ti.devminor = tarfile.CHRTYPE, 5, 1
+            elif k == "p":
+                ti.type = tarfile.FIFOTYPE
+            else:
+                raise vlib.CheckFailure("generator: node kind %r in a tar archive" % k)
+            tf.addfile(ti)
     r = env.tool(cmdline(env.t2s) + [img], stdin=bio.getvalue())
     return r.returncode, r.stderr, img
 
@@ -549,6 +967,15 @@ def parse_stat(text):
     return out
 
 
+def rd_bytes(env, args):
+    """rdsquashfs with binary stdout; a timeout is a result (rc 124), not an exception"""
+    try:
+        r = vlib.sh([str(env.rd)] + [str(a) for a in args], env=env.env, text=False, timeout=TOOL_TIMEOUT)
+        return r.returncode, r.stdout
+    except Exception as e:                                           # subprocess.TimeoutExpired
+        return 124, b"timeout: %r" % (e,)
+
+
 def decode_image(env, case, img):
     """real layout: dict with base, area, frags, per-path inode records, exports, all inodes"""
     raw = img.read_bytes()
@@ -557,7 +984,10 @@ def decode_image(env, case, img):
     bynum = {i["number"]: i for i in inodes}
     files = {}
     problems = []
-    for p, c in zip(case["paths"], case["contents"]):
+    todo = list(zip(case["paths"], case["contents"]))
+    if case.get("many"):                                             # per-path decoding for a sample only
+        todo = [todo[i] for i in case["sample"]]
+    for p, c in todo:
         r = env.tool([env.rd, "-s", p.decode("utf-8", "surrogateescape"), img])
         if r.returncode != 0:
             problems.append("rdsquashfs -s %r failed rc=%s %s" % (p, r.returncode, r.stderr[-200:]))
@@ -573,11 +1003,22 @@ def decode_image(env, case, img):
         if rd_view != raw_view:
             problems.append("rdsquashfs -s and the raw inode walk disagree on %r: %s vs %s" % (p, rd_view, raw_view))
         files[p] = ino
-        rc = vlib.sh([str(env.rd), "-c", p.decode("utf-8", "surrogateescape"), str(img)], env=env.env, text=False, timeout=120)
-        if rc.returncode != 0 or rc.stdout != c:
+        rc, out = rd_bytes(env, ["-c", p.decode("utf-8", "surrogateescape"), img])
+        if rc != 0 or out != c:
             problems.append("content:%r" % p)
+    rc, desc = rd_bytes(env, ["-d", img])
+    if rc != 0:
+        problems.append("rdsquashfs -d failed rc=%s" % rc)
     return {"im": im, "base": im.data_base, "area": raw[im.data_base:im.inode_table], "frags": im.fragments(), "files": files,
-            "exports": im.exports(), "inodes": inodes, "problems": problems, "imglen": len(raw)}
+            "exports": im.exports(), "inodes": inodes, "problems": problems, "imglen": len(raw), "describe": desc}
+
+
+def tree_view(real):
+    """what a reader sees of the *tree*: the listing (names, types, modes, owners, targets, device numbers) and per inode
+    number its type class, permission bits and — for files — size.  Nothing about where data lies."""
+    basic = {8: 1, 9: 2, 10: 3, 11: 4, 12: 5, 13: 6, 14: 7}
+    per = sorted((i["number"], basic.get(i["type"], i["type"]), i["mode"], i.get("size")) for i in real["inodes"])
+    return real["describe"], per
 
 
 def show_file_real(ino):
@@ -629,6 +1070,8 @@ def compress_table(env, case, payloads, table):
     if not todo:
         return
     out = env.run_harness(["cinit %s %d" % (case["comp"], case["B"])] + ["cmp " + hx(p) for p in todo])
+    if out[0] != "ok" or len(out) != len(todo) + 1 or "bad-op" in out:
+        raise vlib.CheckFailure("block compressor oracle failed: %s" % out[0])
     for p, o in zip(todo, out[1:]):
         table[p] = None if o in ("-", "err") else unhx(o)
 
@@ -639,7 +1082,7 @@ def effect_failures(case, order, real):
     files, frags = real["files"], real["frags"]
     cont = dict(zip(case["paths"], case["contents"]))
     seen = []                                                       # earlier files: (data range end, frag range)
-    last_start = None
+    linked = {x for k, _, x in case.get("others", []) if k == "h"}
     for p, fl in order:
         ino = files.get(p)
         if ino is None:
@@ -656,7 +1099,7 @@ def effect_failures(case, order, real):
             if ino["frag"] is not None or len(ino["words"]) != (size + B - 1) // B:
                 bad.append(("dont_fragment_effect", p))
         if fl & F_NS:
-            if 0 in ino["words"] or ino["sparse"] != 0 or ino["extended"]:
+            if 0 in ino["words"] or ino["sparse"] != 0 or (ino["extended"] and p not in linked):
                 bad.append(("nosparse_effect", p))
             if size % B and not (fl & F_DF) and ino["frag"] is None:
                 bad.append(("nosparse_effect_tail", p))
@@ -687,7 +1130,7 @@ def run_pack_case(env, case, scratch):
     try:
         rc, err, img = build_image(env, case, d)
         if rc != 0:
-            res["problems"].append(("tool-failed", "%s exited %s: %s" % (case["tool"], rc, str(err)[-400:])))
+            res["problems"].append(("tool-failed", "%s exited %s: %s" % (case["tool"], rc, san_summary(str(err)))))
             return res
         try:
             real = decode_image(env, case, img)
@@ -703,12 +1146,17 @@ def run_pack_case(env, case, scratch):
                 case["base"] = 96
         # --- packing order and flags -----------------------------------------------------------------------
         if case["tool"] in ("gensquashfs", "packdir"):
-            line = env.run_harness(["sort %d %s %s" % (len(case["paths"]), " ".join(hx(p) for p in case["paths"]),
-                                                       hx(case["sortfile"] or b""))])[0]
-            init = [unhx(t) for t in line.split(" ; ")[0].split()[1:]]
+            hothers = [(k, q, (b"/" + x) if k == "h" else x) for k, q, x in case.get("others", [])]
+            line = env.run_harness([harness_sort_line(case["paths"], case["sortfile"] or b"", hothers)])[0]
+            if line == "bad-op":
+                res["problems"].append(("generator", "the harness cannot build this tree"))
+                return res
+            init, _res, frame = split_sort_answer(line)
+            if frame != "ok":
+                res["problems"].append(("frame", "fstree_sort_files changed the tree beyond the file list order and the file attributes"))
             orders = {}
             for mode in ("fix", "cur"):
-                m, _, _ = model_sort(env, [(init, case["sortfile"] or b"")], mode)
+                m, _, _ = model_sort(env, [(init, case["sortfile"] or b"", bool(hothers))], mode)
                 ps = parse_sorted(m[0])
                 if ps is None:
                     res["problems"].append(("generator", "sort file rejected by the model: %s" % m[0]))
@@ -754,7 +1202,8 @@ def run_pack_case(env, case, scratch):
         res["stats"] = {"files": len(case["paths"]), "blocks": len(spec["blocks"]), "frags": len(spec["frags"]),
                         "shared": sum(1 for f in spec["files"] if f["shared"]),
                         "sparse_files": sum(1 for f in spec["files"] if f["sparse"]),
-                        "flags": sorted({fl for _, fl in eorders["fix"]}), "area": len(real["area"])}
+                        "flags": sorted({fl for _, fl in eorders["fix"]}), "area": len(real["area"]),
+                        "nlink_gt1": sum(1 for i in real["inodes"] if i.get("nlink", 1) > 1)}
         used = eorders[matched[0]] if matched else eorders["fix"]
         bad = effect_failures(case, used, real)
         res["effects"] = bad
@@ -775,6 +1224,11 @@ def run_pack_case(env, case, scratch):
         # --- order on disk, export table, padding ---------------------------------------------------------------
         res["order_bad"] = order_failures(case, used, real, spec if matched == ("fix", "fix") else None)
         res["export_bad"] = export_failures(env, case, real)
+        res["tree_bad"] = tree_failures(env, case, real, d)
+        nb = numbering_failures(env, case, real)
+        res["stats"]["numbered"] = 0 if nb is None else 1
+        for b in nb or []:
+            res["problems"].append(("numbering", b))
         if real["imglen"] % case["devblk"]:
             res["problems"].append(("padding", "image length %d not a multiple of -B %d" % (real["imglen"], case["devblk"])))
     except HarnessCrash as e:
@@ -793,15 +1247,28 @@ def compare(case, order, mo, real):
     rf = [(e["start"], e["size"], e["raw"]) for e in real["frags"]]
     if mf != rf:
         diffs.append("fragment table: model %s image %s" % (mf, rf))
+    if len(order) != len(mo["files"]) or len(order) != len(case["paths"]):
+        raise vlib.CheckFailure("model answered %d files for %d inputs" % (len(mo["files"]), len(order)))
+    linked = {x for k, _, x in case.get("others", []) if k == "h"}   # a file with a second name has an extended inode
+    sampled = None if not case.get("many") else {case["paths"][i] for i in case["sample"]}
+    want_all = []
     for (p, fl), f in zip(order, mo["files"]):
+        a = (f["size"], f["start"], f["frag"], f["sparse"], f["extended"] or p in linked, f["words"])
+        want_all.append(a)
+        if sampled is not None and p not in sampled:
+            continue
         ino = real["files"].get(p)
         if ino is None:
             diffs.append("file %r missing" % p)
             continue
-        a = (f["size"], f["start"], f["frag"], f["sparse"], f["extended"], f["words"])
         b = (ino["size"], ino["start"], ino["frag"], ino["sparse"], ino["extended"], ino["words"])
         if a != b:
             diffs.append("file %r flags %d: model %s image %s" % (p, fl, a, b))
+    # every file inode of the image, whatever its path: the multiset of layouts is the model's
+    have_all = [(i["size"], i["start"], i["frag"], i["sparse"], i["extended"], i["words"]) for i in real["inodes"] if "size" in i]
+    key = lambda t: (t[0], t[1], t[2] or (-1, -1), t[3], t[4], t[5])
+    if sorted(want_all, key=key) != sorted(have_all, key=key):
+        diffs.append("the file inodes of the image (%d) are not the model's per-file results (%d)" % (len(have_all), len(want_all)))
     return (not diffs), diffs
 
 
@@ -864,7 +1331,86 @@ def monitor_read(env, case, real, table, order):
         last = out.pop()
         if last != "ok":
             lean_eff = last.split()
+    if len(out) != len(keys):
+        raise vlib.CheckFailure("mon-read: %d answers for %d files" % (len(out), len(keys)))
     return [p for (p, c), o in zip(keys, out) if unhx(o) != c], lean_eff
+
+
+def tree_tokens(case):
+    """the tree of a case as `number` tokens: (number of root children, tokens, paths in the same pre-order)"""
+    root = {}
+
+    def put(p, kind):
+        parts, d = p.split(b"/"), root
+        for c in parts[:-1]:
+            d = d.setdefault(c, {})
+            if not isinstance(d, dict):
+                raise vlib.CheckFailure("generator: %r below a non-directory" % p)
+        if kind == "d":
+            d.setdefault(parts[-1], {})
+        else:
+            d[parts[-1]] = kind
+    for p in case["paths"]:
+        put(p, "f")
+    for k, q, _ in case.get("others", []):
+        put(q, {"h": "h", "d": "d"}.get(k, "f"))
+    toks, order = [], []
+
+    def walk(d, prefix):
+        for name in sorted(d):                                       # strcmp order, as insert_sorted keeps the children
+            v, path = d[name], prefix + name
+            order.append(path)
+            if isinstance(v, dict):
+                toks.append("d%d" % len(v))
+                walk(v, path + b"/")
+            else:
+                toks.append(v)
+    walk(root, b"")
+    return len(root), toks, order
+
+
+def numbering_failures(env, case, real):
+    """the inode numbering model behind export_table_of_tree (Sqfs/Model/Numbering.lean) against the image: inode
+    count and the number of every file whose inode was located.  Not for trees with hard links (reorder_hard_links
+    renumbers afterwards and is not modelled)."""
+    if any(k == "h" for k, _, _ in case.get("others", [])):
+        return None
+    k, toks, order = tree_tokens(case)
+    ans = env.run_model(["number %d %s" % (k, " ".join(toks))])[0].split()
+    if len(ans) != len(order) + 2:
+        raise vlib.CheckFailure("number: %d answers for %d nodes" % (len(ans) - 2, len(order)))
+    bad = []
+    if int(ans[0]) != real["im"].inode_count or int(ans[1]) != int(ans[0]):
+        bad.append("inode count: model %s (root %s), image %d" % (ans[0], ans[1], real["im"].inode_count))
+    want = dict(zip(order, ans[2:]))
+    for p, ino in real["files"].items():
+        if str(ino["number"]) != want.get(p):
+            bad.append("inode number of %r: model %s, image %d" % (p, want.get(p), ino["number"]))
+    return bad[:5]
+
+
+def tree_failures(env, case, real, d):
+    """directives_preserve_tree on the real tools: the same input packed without sort file and without -T describes the
+    same tree (listing, inode numbers, types, modes, sizes); only a share of the cases (case["twin"])"""
+    if not case.get("twin"):
+        return []
+    plain = dict(case, sortfile=None, notail=False, id="%st" % case["id"])
+    rc, err, img = build_image(env, plain, d / "twin")
+    if rc != 0:
+        return ["packing the same tree without directives failed: rc=%s %s" % (rc, str(err)[-200:])]
+    try:
+        other = decode_image(env, dict(plain, many=True, sample=[]), img)
+    except (ValueError, struct.error, IndexError, KeyError) as e:
+        return ["image without directives cannot be decoded: %r" % (e,)]
+    a, b = tree_view(real), tree_view(other)
+    bad = []
+    if a[0] != b[0]:
+        la, lb = a[0].splitlines(), b[0].splitlines()
+        k = next((i for i, (x, y) in enumerate(zip(la, lb)) if x != y), min(len(la), len(lb)))
+        bad.append("listing differs at line %d: %r vs %r" % (k, la[k:k + 1], lb[k:k + 1]))
+    if a[1] != b[1]:
+        bad.append("inode numbers / types / modes / sizes differ: %s vs %s" % ([x for x in a[1] if x not in b[1]][:3], [x for x in b[1] if x not in a[1]][:3]))
+    return bad
 
 
 def order_failures(case, order, real, spec):
@@ -956,14 +1502,16 @@ def judge(case, res, summary):
             out.append((KEY_D24, "nosparse all-zero tail alone in its fragment block: %s" % what, True))
             summary["d24"] += 1
             continue
-        out.append(("%s:%s" % (kind, case_hash(case)), "%s: %s" % (cid, what), True))
+        # model of the inode numbering ≠ image: the correspondence behind export_table_of_tree broke, no property clause fails
+        out.append(("%s:%s" % (kind, case_hash(case)), "%s: %s" % (cid, what), kind != "numbering"))
     if "matched" not in res:
         return out
     summary["compared"] += 1
     _distinct.add("pack:" + case_hash(case))
     clause_bad = list(res["effects"]) + [("directives_preserve_content", p) for p in res["content_bad"]] \
         + [("directives_preserve_content(readFile)", p) for p in (res.get("readback_bad") or [])] \
-        + [("layout_follows_order", p) for p in res["order_bad"]] + [("export_table_ok", e) for e in res["export_bad"]]
+        + [("layout_follows_order", p) for p in res["order_bad"]] + [("export_table_ok", e) for e in res["export_bad"]] \
+        + [("directives_preserve_tree", e) for e in res.get("tree_bad", [])]
     if res["matched"] == ("fix", "fix") and not clause_bad:
         summary["agree"] += 1
         return out
@@ -1000,9 +1548,27 @@ def judge(case, res, summary):
 
 
 def case_replay(case):
-    return {"kind": "pack", "case": {k: (v.hex() if isinstance(v, bytes) else
-                                         [x.hex() for x in v] if isinstance(v, list) and v and isinstance(v[0], bytes) else v)
-                                     for k, v in case.items()}}
+    def enc(k, v):
+        if k == "others":
+            return [[kind, q.hex(), None if x is None else x.hex()] for kind, q, x in v]
+        if isinstance(v, bytes):
+            return v.hex()
+        if isinstance(v, list) and v and isinstance(v[0], bytes):
+            return [x.hex() for x in v]
+        return v
+    return {"kind": "pack", "case": {k: enc(k, v) for k, v in case.items() if k not in ("cmdline", "base")}}
+
+
+def case_from_json(c):
+    case = dict(c)
+    case["paths"] = [bytes.fromhex(x) for x in c["paths"]]
+    case["contents"] = [bytes.fromhex(x) for x in c["contents"]]
+    case["sortfile"] = None if c.get("sortfile") is None else bytes.fromhex(c["sortfile"])
+    if "others" in c:
+        case["others"] = [(k, bytes.fromhex(q), None if x is None else bytes.fromhex(x)) for k, q, x in c["others"]]
+    if c.get("glob_dir") is not None:
+        case["glob_dir"] = bytes.fromhex(c["glob_dir"])
+    return case
 
 
 def case_hash(case):
@@ -1044,11 +1610,20 @@ def run(ctx):
     if cdir.exists():
         for p in sorted(cdir.glob("sort-*.json")):
             j = json.loads(p.read_text())
-            cases_a.append(([bytes.fromhex(x) for x in j["paths"]], bytes.fromhex(j["sortfile"])))
+            cases_a.append(([bytes.fromhex(x) for x in j["paths"]], bytes.fromhex(j["sortfile"]),
+                            [(k, bytes.fromhex(q), None if x is None else bytes.fromhex(x)) for k, q, x in j.get("others", [])]))
     ncorpus_a = len(cases_a)
     for _ in range(4000 if quick else 30000):
         paths = gen_paths(ctx.rng)
-        cases_a.append((paths, gen_sortfile(ctx.rng, paths)))
+        extras = gen_extras(ctx.rng, paths) if ctx.rng.random() < 0.3 else []
+        # lines may name the other nodes too (a hard link, a directory, a symlink): they select nothing
+        cand = paths + [q for _, q, _ in extras if ctx.rng.random() < 0.5]
+        sf = gen_sortfile(ctx.rng, cand)
+        if ctx.rng.random() < 0.25:                 # several files at distinct wide priorities in one sort file
+            ps = ctx.rng.sample(paths, min(len(paths), ctx.rng.randint(2, 4)))
+            sf = b"".join(str(gen_prio(ctx.rng) if ctx.rng.random() < 0.3 else ctx.rng.choice(WIDEP)).encode() + b" " +
+                          (x if plain_ok(x) and b'"' not in x else quote_name(x)) + b"\n" for x in ps) + sf
+        cases_a.append((paths, sf, extras))
     sa = {"sort_cases": 0}
     for i in range(0, len(cases_a), 2500):
         s = part_a(ctx, env, cases_a[i:i + 2500])
@@ -1060,20 +1635,53 @@ def run(ctx):
             else:
                 sa[k] = sa.get(k, 0) + v
     ctx.log("part A: %s" % sa)
+    # an empty or degenerate part is a failure of the check, never a pass
+    if sa.get("sort_cases", 0) != len(cases_a) and not ctx.violations:
+        raise vlib.CheckFailure("part A evaluated %s of %d cases" % (sa.get("sort_cases"), len(cases_a)))
+    if sa.get("sort_cases") and (sa.get("sort_ok", 0) < len(cases_a) // 4 or sa.get("nontrivial", 0) < len(cases_a) // 8
+                                 or sa.get("typed_trees", 0) < len(cases_a) // 8 or sa.get("wide_priority_pairs", 0) < len(cases_a) // 40):
+        raise vlib.CheckFailure("part A generator degenerated: %s" % sa)
+    missing = ALL_ERR_KINDS - set(sa.get("err_kinds", {}))
+    if sa.get("sort_cases") and missing:
+        raise vlib.CheckFailure("part A never exercised the rejection(s) %s" % sorted(missing))
+    # ---- part C: the export table of dir_writer.c alone -----------------------------------------------------------
+    cases_c = [gen_export_case(ctx.rng, i, quick) for i in range(160 if quick else 700)]
+    # fixed shapes first: exactly at and just beyond the initial capacity and the first metadata block
+    for k, (n, order) in enumerate([(512, "asc"), (513, "asc"), (513, "first-big"), (1024, "asc"), (1025, "asc"), (1025, "desc"),
+                                    (2049, "perm"), (4097, "first-big")]):
+        nums = list(range(1, n))
+        if order == "desc":
+            nums.reverse()
+        elif order == "first-big":
+            nums = nums[-1:] + nums[:-1]
+        elif order == "perm":
+            ctx.rng.shuffle(nums)
+        cases_c.insert(k, {"id": 900000 + k, "pairs": [(m, 0x10000 * m + 7) for m in nums] + [(n, 0x10000 * n + 7)], "off": 96,
+                           "comp": "gzip" if k % 2 else "raw", "order": order, "band": "fixed"})
+    sc = {}
+    for i in range(0, len(cases_c), 200):
+        for k, v in part_c(ctx, env, cases_c[i:i + 200]).items():
+            sc[k] = max(sc.get(k, 0), v) if k == "max_entries" else sc.get(k, 0) + v
+    ctx.log("part C: %s" % sc)
+    if not ctx.violations and (sc.get("ok", 0) < len(cases_c) * 3 // 4 or min(sc.get("inodes_ge_513", 0), sc.get("inodes_ge_1025", 0),
+                                                                           sc.get("inodes_ge_2049", 0)) < 3 or sc.get("compressed_blocks", 0) == 0):
+        raise vlib.CheckFailure("part C degenerated: %s" % sc)
     # ---- part B ------------------------------------------------------------------------------------------------
     cases_b = corpus_cases()
     if cdir.exists():
         for p in sorted(cdir.glob("pack-*.json")):
-            j = json.loads(p.read_text())
-            j["paths"] = [bytes.fromhex(x) for x in j["paths"]]
-            j["contents"] = [bytes.fromhex(x) for x in j["contents"]]
-            j["sortfile"] = None if j.get("sortfile") is None else bytes.fromhex(j["sortfile"])
+            j = case_from_json(json.loads(p.read_text()))
             j["id"] = 200000 + len(cases_b)
             cases_b.append(j)
     ncorpus_b = len(cases_b)
     ngen = 240 if quick else 2500
     for i in range(ngen):
         cases_b.append(gen_pack_case(ctx.rng, i, quick, "tar2sqfs" if i % 6 == 5 else "packdir" if i % 6 == 4 else "gensquashfs"))
+    # images with more than 512 / more than 1024 inodes and -e (export table capacity growth, second metadata block)
+    nmany = 0
+    for k, (lo, hi) in enumerate([(515, 600), (1030, 1120)] * (1 if quick else 4)):
+        cases_b.append(gen_many_case(ctx.rng, 300000 + k, lo, hi))
+        nmany += 1
     summary = {k: 0 for k in ("compared", "agree", "d24", "d26", "d27", "clause_bad", "corr_bad", "generator_rejects")}
     hist = {"files": 0, "blocks": 0, "frags": 0, "shared": 0, "sparse_files": 0, "area_bytes": 0, "flagsets": {}, "comp": {}, "B": {},
             "notail": 0, "export": 0, "tar2sqfs": 0, "with_sortfile": 0}
@@ -1085,6 +1693,8 @@ def run(ctx):
             st = res.get("stats") or {}
             for k in ("files", "blocks", "frags", "shared", "sparse_files"):
                 hist[k] += st.get(k, 0)
+            hist["nlink_gt1"] = hist.get("nlink_gt1", 0) + st.get("nlink_gt1", 0)
+            hist["numbered"] = hist.get("numbered", 0) + st.get("numbered", 0)
             hist["area_bytes"] += st.get("area", 0)
             for fl in st.get("flags", []):
                 hist["flagsets"][str(fl)] = hist["flagsets"].get(str(fl), 0) + 1
@@ -1098,25 +1708,38 @@ def run(ctx):
             hist["tar2sqfs"] += 1 if c["tool"] == "tar2sqfs" else 0
             hist["packdir"] = hist.get("packdir", 0) + (1 if c["tool"] == "packdir" else 0)
             hist["with_sortfile"] += 1 if c.get("sortfile") else 0
+            for k, cond in (("twins", c.get("twin")), ("jobs_gt1", c["jobs"] > 1), ("backlog", c.get("backlog")), ("other_nodes", c.get("others")),
+                            ("hardlinks", any(x[0] == "h" for x in c.get("others", []))), ("via_glob", c.get("via_glob")),
+                            ("many_inodes", c.get("many")), ("big_block", c["B"] >= 65536)):
+                hist[k] = hist.get(k, 0) + (1 if cond else 0)
             import shutil
             shutil.rmtree(ctx.scratch / ("c%d" % c["id"]), ignore_errors=True)
     ctx.log("part B: %s" % summary)
+    big = [len(c["paths"]) for c in cases_b if c.get("many")]
+    if not ctx.violations and (summary["compared"] != len(cases_b) - summary["generator_rejects"] or summary["generator_rejects"] > len(cases_b) // 20
+                               or sum(1 for n in big if n >= 513) < 2 or sum(1 for n in big if n >= 1025) < 1
+                               or hist.get("twins", 0) == 0 or hist.get("jobs_gt1", 0) == 0 or hist.get("other_nodes", 0) == 0
+                               or hist.get("nlink_gt1", 0) < hist.get("hardlinks", 0) or hist.get("hardlinks", 0) == 0
+                               or hist.get("numbered", 0) < len(cases_b) // 2):
+        raise vlib.CheckFailure("part B degenerated: %s %s" % (summary, {k: hist.get(k) for k in ("twins", "jobs_gt1", "other_nodes", "hardlinks", "nlink_gt1", "via_glob")}))
     ctx.cov.update({
-        "evaluations": sa.get("sort_cases", 0) + len(cases_b),
+        "evaluations": sa.get("sort_cases", 0) + len(cases_b) + sc.get("export_cases", 0),
         "distinct_nontrivial": len(_distinct),
         "rule": "A: %d generated (file list, sort file) pairs + %d corpus through the real fstree_sort_files (ASan+UBSan) and the model, "
                 "fnmatch answered by libc; non-trivial = the sort changed order/priority/flags of some file.  "
                 "B: %d generated + %d corpus trees packed by the real gensquashfs/tar2sqfs, image decoded independently and compared "
                 "with specPack (data area byte for byte, fragment table, every file inode's layout fields); non-trivial = image decoded "
-                "and compared; distinct_nontrivial counts distinct inputs (hash of the harness line / of the case)" % (len(cases_a) - ncorpus_a, ncorpus_a, ngen, ncorpus_b),
+                "and compared; distinct_nontrivial counts distinct inputs (hash of the harness line / of the case).  "
+                "C: %d add_entry/write_export_table runs of the real dir writer (up to %d entries) vs the array model, byte for byte" % (
+                    len(cases_a) - ncorpus_a, ncorpus_a, ngen + nmany, ncorpus_b, len(cases_c), sc.get("max_entries", 0)),
         "samples": [{"paths": [p.decode("latin1") for p in cases_a[i][0]], "sortfile": cases_a[i][1].decode("latin1")} for i in
                     (ncorpus_a, ncorpus_a + 1, len(cases_a) - 1)] +
                    [{"tool": c["tool"], "B": c["B"], "comp": c["comp"], "sizes": [len(x) for x in c["contents"]],
                      "sortfile": (c.get("sortfile") or b"").decode("latin1"), "notail": c["notail"], "export": c["export"]}
                     for c in cases_b[ncorpus_b:ncorpus_b + 3]],
         "disagreements_checked": sa.get("disagreements", 0) + sa.get("quoted_cur_diff", 0) + summary["d24"] + summary["d26"]
-                                 + summary["d27"] + summary["clause_bad"] + summary["corr_bad"],
-        "part_a": sa, "part_b": summary, "part_b_histogram": hist,
+                                 + summary["d27"] + summary["clause_bad"] + summary["corr_bad"] + sc.get("disagreements", 0),
+        "part_a": sa, "part_b": summary, "part_b_histogram": hist, "part_c": sc,
     })
     return ctx.finish(LEVEL, trusted_extra=[
         "fnmatch(3) is not modelled: the model's match queries are answered by libc",
@@ -1138,27 +1761,37 @@ def replay(ctx, path):
     if rp.get("kind") == "sort":
         line = rp["harness_line"]
         real = env.run_harness([line])[0]
-        w = line.split()
-        nf = int(w[1])
-        paths = [unhx(t) for t in w[2:2 + nf]]
-        sf = unhx(w[2 + nf])
-        init = [unhx(t) for t in real.split(" ; ")[0].split()[1:]]
-        mf, per, bits = model_sort(env, [(init, sf)], "fix")
-        print("paths   :", paths)
+        sf = unhx(line.split()[-1])
+        init, rr, frame = split_sort_answer(real)
+        mf, per, bits = model_sort(env, [(init, sf, line.startswith("sortx"))], "fix")
+        print("harness :", line[:400])
         print("sortfile:", sf)
         print("impl    :", real)
         print("model   :", mf[0])
-        rr = real.split(" ; ")[1]
         same = rr == mf[0] or (rr.startswith("err") and mf[0].startswith("err") and rr.split()[1] == mf[0].split()[1])
-        return 0 if same else 1
+        if same and rr.startswith("ok"):
+            same = not sort_clause_failures(init, parse_sorted(rr), per[0], bits[0])
+        return 0 if same and frame == "ok" else 1
+    if rp.get("kind") == "export" and "case" not in rp:
+        try:
+            print(env.run_harness([rp["harness_line"]])[0][:300])
+            return 0
+        except HarnessCrash as e:
+            print("harness aborted rc=%s: %s" % (e.rc, san_summary(e.err)))
+            return 1
+    if rp.get("kind") == "export":
+        c = dict(rp["case"])
+        c["pairs"] = [tuple(x) for x in c["pairs"]]
+        n0 = len(ctx.violations)
+        st = part_c(ctx, env, [c])
+        print("impl :", c.get("real", "")[:300])
+        print("model:", c.get("model", "")[:300])
+        print(st)
+        return 1 if len(ctx.violations) > n0 or st.get("disagreements") else 0
     if rp.get("kind") == "pack":
-        c = rp["case"]
-        case = dict(c)
-        case["paths"] = [bytes.fromhex(x) for x in c["paths"]]
-        case["contents"] = [bytes.fromhex(x) for x in c["contents"]]
-        case["sortfile"] = None if c.get("sortfile") is None else bytes.fromhex(c["sortfile"])
+        case = case_from_json(rp["case"])
         res = run_pack_case(env, case, ctx.scratch)
-        for k in ("problems", "matched", "spec_diffs", "effects", "content_bad", "readback_bad", "order_bad", "export_bad", "d24", "d27"):
+        for k in ("problems", "matched", "spec_diffs", "effects", "content_bad", "readback_bad", "order_bad", "export_bad", "tree_bad", "d24", "d27"):
             print("%-13s: %s" % (k, res.get(k)))
         summary = {k: 0 for k in ("compared", "agree", "d24", "d26", "d27", "clause_bad", "corr_bad", "generator_rejects")}
         verdicts = judge(case, res, summary)
